@@ -139,6 +139,48 @@ CLAIMED = {
             "Trusts vf/symx/sscalar.py, sympy expand, z3 nlsat; ThermalRelaxationError, QubitChannel and everything about "
             "default.mixed's evolution (PSD, trace, Kraus-sum simulation) is not covered.",
             "DESIGN.md 4 C28", "E2"),
+    "C23": ("proof",
+            "sidecar contracts on core/transforms/compile_pipeline.py (+ the real BoundTransform accessors): (A) __call_tapes, "
+            "_batch_postprocessing and _apply_postprocessing_stack executed from their ASTs with UNINTERPRETED tape transforms "
+            "and post-processing functions for every enumerated fan-out table; the returned post-processing function, applied "
+            "(twice) to symbolic results, equals the by-hand stage-by-stage composition (EUF, z3); (B) the list API executed on "
+            "pipelines of enumerated shapes with symbolic marker levels / indices against the python-list model with markers as "
+            "separators, exceptional postconditions for state-unchanged-on-error; counter-models replayed on real pipelines",
+            "Routing for 61 fan-out tables (1-3 stages, batches of 1-3 circuits, fan-out 0-3 incl. dropped circuits): results "
+            "reach exactly the post-processing function of the circuit that produced them, in input order, and the function "
+            "is re-usable. List API on 11 pipeline shapes (plain, equal, expand-carrying, terminal elements) x marker sets: "
+            "len / [i] / [slice] / copy / == / in / append / extend / + / += / radd / * / insert / pop / remove / add_marker / "
+            "remove_marker give the list-model result, markers keep their neighbours, levels stay within [0, len], errors are "
+            "raised exactly when documented and leave the pipeline unchanged (~2000 obligations, 3228 VCs).",
+            "Size-bounded in shapes / fan-out tables, complete in marker levels, indices, argument values and results; "
+            "Transform objects are abstract records; cotransform cache, generic dispatch on QNodes/devices and the capture "
+            "path are outside. Four defects (F4, F19, F20, F21) fixed in repo.",
+            "DESIGN.md 4 C23", "E1"),
+    "C46": ("proof",
+            "sidecar contracts on resource/resource.py `_count_resources` (VCs from the real AST on tapes of SYMBOLIC length; "
+            "operations a tagged union {Controlled, ControlledOp, other}; names uninterpreted; counting dictionaries as z3 arrays; "
+            "loop invariants 'entry k is the number of elements so far with key k, present iff positive, sum of entries == "
+            "index' through indexed count / sum spec functions used via instances of their defining equations), plus "
+            "size-bounded checks of SpecsResources.__post_init__ and _flatten_dict; z3",
+            "For all tape lengths and contents: gate counts by type with the controlled-prefix rule, measurement counts, the "
+            "total == number of operations, wire and depth passthrough; SpecsResources totals on <= 3 entries / 2 nesting levels.",
+            "Trusts the pyvc encoder + vf/pyvc/xmaps.py (tagged unions, defaultdict/Counter model), z3; _mp_to_str/_obs_to_str and "
+            "graph depth uninterpreted; specs levels, trainable-parameter counts, Resources.subs not covered.",
+            "DESIGN.md 4 C46", "E1"),
+    "C47": ("proof",
+            "sidecar contracts on estimator/{wires_manager,resources_base,resource_operator,estimate}.py (VCs from the real ASTs, "
+            "z3): exact integers, gate-count dictionaries as z3 arrays with every per-gate statement proved at an ARBITRARY key, "
+            "decompositions an uninterpreted function into action lists of symbolic length over a tagged union, loops cut by "
+            "invariants, the self-recursive call replaced by the contract being proved, composition laws as lemmas over the contracts",
+            "For all inputs (unbounded integers, all map contents, all decomposition lengths): wire-manager invariant and "
+            "grab/free accounting with ValueError exactly on the tight-budget shortfall / over-free; Resources add_/multiply_ "
+            "series/parallel are pointwise sums/multiples with the series/parallel wire rules; "
+            "_update_counts_from_compressed_res_op adds scalar*cnt(op,g) for every gate g (additive over the action list, "
+            "multiplicative in the scalar); multiply_series(r,k+1) == add_series(multiply_series(r,k), r) and the parallel "
+            "analogue, associativity/commutativity.",
+            "Partial correctness (decomposition DAG termination assumed); sign well-formedness of decompositions assumed for the "
+            "wire statements; estimate()/queue plumbing and concrete library decompositions are not checked individually.",
+            "DESIGN.md 4 C47", "E1"),
     "C40": ("proof",
             "sidecar contracts over the parameter-list view P on the real methods of core/qscript.py (par_info, trainable_params "
             "getter/setter, num_params, get_operation, get_parameters, data, bind_new_parameters, copy): VCs generated from the "
